@@ -301,6 +301,12 @@ func jobC13(c *rt.Ctx) {
 					return []interface{}{all, valid}, err
 				})
 				expect("batch", want, got, pv, map[string]interface{}{"counts": []int{a, b, d3}})
+				if got == "error" {
+					// an error comes with no result at all: (false, nil, err)
+					if all, valid, _ := VerifyBatch(rt.NewRng(c.Seed, "c13c"), pubs, msgs, sigs, &Options{}); all || valid != nil {
+						c.Violation("C13 batch counts result", fmt.Sprintf("VerifyBatch with mismatched counts returned all=%v valid=%v next to its error", all, valid), map[string]interface{}{"counts": []int{a, b, d3}})
+					}
+				}
 				if got == "value" {
 					vv := v.([]interface{})
 					if len(vv[1].([]bool)) != a || !vv[0].(bool) {
